@@ -255,7 +255,13 @@ def sig_base(sig: str) -> str:
 
 
 def match_known(kf: dict, sig: str):
-    return next((k for k in kf if sig == k or sig.startswith(k + "|")), None)
+    for k, ent in kf.items():
+        if sig == k or sig.startswith(k + "|"):
+            return k
+        marker = ent.get("consequence_marker")
+        if marker and marker in sig_base(sig):
+            return k
+    return None
 
 
 def triage(prop, total, minimise_budget=45.0, max_reports=6):
